@@ -1,6 +1,8 @@
 // Package unit is the sub-package of the kinds corpus program.
 package unit
 
+import "example.com/vs/kinds/unit/deep"
+
 type Unit uint8
 
 const (
@@ -13,6 +15,9 @@ const (
 type Tags []string
 
 type Amount struct {
-	Value float64
-	Unit  Unit
+	Value     float64
+	Unit      Unit
+	Precision deep.Precision
+	Scales    [2]deep.Scale
+	ByScale   map[deep.Scale]int
 }
